@@ -472,9 +472,16 @@ func runEncodeUnconditional(c *Ctx) {
 			return false
 		}
 		for _, g := range Guards(in) {
-			if usesParam(g.Cond, 0) {
-				bad = g.String()
+			if !usesParam(g.Cond, 0) {
+				continue
 			}
+			// an empty-frame test (len(data) compared with the constant 0) is not a size policy
+			if b, ok := g.Cond.(*ssa.BinOp); ok {
+				if z, isZ := constIntOf(b.Y); isZ && z == 0 {
+					continue
+				}
+			}
+			bad = g.String()
 		}
 		c.Check("C11.R6", in, "the codec is applied to every frame once installed (no condition on the frame)", bad == "",
 			"a frame that skips the encoder is written plain with no codec marker: the client, which decodes every frame after the connect reply, cannot read it ("+bad+")")
